@@ -193,6 +193,44 @@ def run(chk, tier):
         chk.ok("R13.5", "extract_hex_val(2)", {"ok_paths": len(oks), "reads": 2, "each digit tested": True, "code point validated": True})
     else:
         chk.bad("R13.5", "extract_hex_val(2)", "extract_hex_val(2) can succeed after reading %s characters with digit tests %s: a truncated or malformed \\x / \\u escape must be a syntax error" % (sorted(set(n for n, _, _ in oks)), [d for _, d, _ in oks][:2]), hb.file)
+    # ---------------- R13.6 hexadecimal digit class of the number scanner
+    import mirq
+    qn = mirq.BodyQ(num)
+    hexd = qn.call_sites(r"char::methods::<impl char>::(is_ascii_hexdigit|is_digit)$")
+    okh = False
+    for i, t, pth in hexd:
+        arg = mirq.expr_of(qn, t["args"][0])
+        if "StringScanner::peek" not in arg:
+            continue
+        # the test is taken only in the hexadecimal state, and its true edge consumes the character into the number
+        cmp16 = [c for c in qn.const_compares() if c[2] == 16 and c[1] == "Eq" and num.dominates(c[0], i)]
+        sw = None
+        cur = t["t"]
+        for _ in range(6):
+            t2 = num.blocks[cur]["term"]
+            if t2 and t2["k"] == "switch":
+                sw = t2
+                break
+            s_ = num.succs(cur)
+            if len(s_) != 1:
+                break
+            cur = s_[0]
+        if sw and cmp16:
+            zero = [c_[1] for c_ in sw["cases"] if int(c_[0]) == 0]
+            true_t = sw["otherwise"] if zero else [c_[1] for c_ in sw["cases"] if int(c_[0]) == 1][0]
+            reg = qn.reach(true_t, blocked={j for j, _, _ in qn.call_sites(r"StringScanner::<'l>::peek$")})
+            pushes = [1 for j, _, p_ in qn.call_sites(r"String::push$") if j in reg]
+            nexts = [1 for j, _, p_ in qn.call_sites(r"StringScanner::<'l>::next$") if j in reg]
+            okh = okh or (bool(pushes) and bool(nexts))
+    if okh:
+        chk.ok("R13.6", "hexadecimal digits are consumed after 0x")
+    else:
+        chk.bad("R13.6", "hexadecimal digits are consumed after 0x", "the number scanner never consumes the digits a-f / A-F in its hexadecimal state: `0xff` is not an integer literal (it stops after `0x`)", num.file)
+    radix = [mirq.expr_of(qn, t["args"][1]) for i, t, pth in qn.call_sites(r"impl u64>::from_str_radix$")]
+    if radix and all(re.search(r"phi\(.*10.*16|16.*10|^_\d+$|base", r_) or r_ not in ("10",) for r_ in radix):
+        chk.ok("R13.6", "integers are converted in the scanned base", radix)
+    else:
+        chk.bad("R13.6", "integers are converted in the scanned base", "from_str_radix is called with radix %s" % radix, num.file)
     return chk.finish(
         "Cast and callee rules on the literal path: parser narrowing of IntLit, the number scanner's conversion primitives, code-point validation, "
         "shared escape helper; escape tables of both literal scanners extracted by symbolic execution of one loop step after a backslash "
